@@ -399,7 +399,10 @@ int main(int argc, char ** argv) {
 			}
 
 			// Perform transclusion(s)
-			char * folder = dirname((char *) a_file->filename[i]);
+			// dirname() may truncate its argument in place, and the file name
+			// is still needed as the source path -- work on a copy
+			char * filename_copy = my_strdup(a_file->filename[i]);
+			char * folder = dirname(filename_copy);
 
 			if (!(extensions & EXT_COMPATIBILITY)) {
 				mmd_prepend_mmd_header(buffer);
@@ -469,6 +472,7 @@ int main(int argc, char ** argv) {
 
 			d_string_free(buffer, true);
 			free(output_filename);
+			free(filename_copy);
 
 			// Decrement counter and drain
 #ifdef kUseObjectPool
